@@ -184,6 +184,38 @@ def run(ctx):
               "operand tokens are no longer copied to args[] in increasing order")
     rep.floor("D1-DIRECTIVES", 30)
 
+    # ---- D5: the parser's view of an opcode's operands covers every destination and source slot --------
+    # Operands are written "destinations, then sources"; an opcode may have up to ORC_STATIC_OPCODE_N_DEST destinations.
+    # opcode_n_args and opcode_arg_size must therefore look at dest_size[0..N_DEST-1] and src_size[0..N_SRC-1] (a counted
+    # loop over the whole range, or every index explicitly): a helper that assumes one destination gives the literal of a
+    # two-destination opcode (splitwb, splitql, splitlw) the wrong size.
+    from loops import counted
+    ND, NS = db.macro_int("ORC_STATIC_OPCODE_N_DEST"), db.macro_int("ORC_STATIC_OPCODE_N_SRC")
+    for hn in ("opcode_n_args", "opcode_arg_size"):
+        h = tu.fn.get(hn)
+        if h is None:
+            raise AnalysisBroken("orcparse.c: %s not found" % hn)
+        for field, N in (("dest_size", ND), ("src_size", NS)):
+            covered = set()
+            for sub in h.walk():
+                if sub.k != "ArraySubscriptExpr" or strip_casts(sub.c[0]) is None or strip_casts(sub.c[0]).k != "MemberExpr" or strip_casts(sub.c[0]).name != field:
+                    continue
+                ix = strip_casts(sub.c[1])
+                if ix.v is not None:
+                    covered.add(ix.v)
+                    continue
+                if ix.k == "DeclRefExpr":
+                    for lp in sub.ancestors():
+                        if lp.k == "ForStmt":
+                            cl = counted(lp)
+                            if cl and cl["var"] == ix.name and cl["first"][0] is None and cl["last"][0] is None:
+                                lo, hi = sorted((cl["first"][1], cl["last"][1]))
+                                covered |= set(range(lo, hi + 1))
+            rep.check(set(range(N)) <= covered, "D5-OPERAND-SLOTS", where(h), "%s:%s" % (hn, field),
+                      "%s looks at %s[0..%d]" % (hn, field, N - 1),
+                      "%s looks only at %s%s of the %d %s slots: operands of opcodes with more than one destination get the wrong position/size "
+                      "(the literal source of splitwb/splitql is created with size 0 -> 4)" % (hn, field, sorted(covered), N, field), line=h.line)
+
     # ---- D4: the synthetic name of an inline literal identifies the literal ----------------------------
     # orc_program_append_str_n finds operands BY NAME.  The name made up for an inline literal must therefore be an
     # injective function of (operand size, literal text): it has to contain the literal token itself (%s of the same
